@@ -262,7 +262,8 @@ impl Matrix {
                 _ => unreachable!(),
             },
             Constructor::Variant((enum_def, idx)) => {
-                let data_ty = data_ty_of_variant(statics, enum_def, *idx);
+                let data_ty =
+                    data_ty_of_variant(statics, enum_def, *idx, enum_ty_args(&expanded.types[0]));
                 match data_ty {
                     Type::Never => unreachable!(),
                     Type::InterfaceOutput(..) => unreachable!(),
@@ -539,7 +540,8 @@ impl DeconstructedPat {
             }
             Type::Nominal(_, _) => match ctor {
                 Constructor::Variant((enum_def, idx)) => {
-                    let data_ty = data_ty_of_variant(statics, enum_def, *idx);
+                    let data_ty =
+                        data_ty_of_variant(statics, enum_def, *idx, enum_ty_args(&self.ty));
 
                     if !matches!(data_ty, Type::Void) {
                         vec![data_ty.clone()]
@@ -571,7 +573,19 @@ impl DeconstructedPat {
                     .map(wildcard_of)
                     .collect()
             }
-            Type::Tuple(tys) | Type::Nominal(_, tys) => tys.iter().map(wildcard_of).collect(),
+            Type::Nominal(_, args) => match ctor {
+                // a missing variant is shown with a wildcard for its payload (if it has one)
+                Constructor::Variant((enum_def, idx)) => {
+                    let data_ty = data_ty_of_variant(statics, enum_def, *idx, args);
+                    if matches!(data_ty, Type::Void) {
+                        vec![]
+                    } else {
+                        vec![wildcard_of(&data_ty)]
+                    }
+                }
+                _ => vec![],
+            },
+            Type::Tuple(tys) => tys.iter().map(wildcard_of).collect(),
             _ => vec![],
         };
         Self {
@@ -619,18 +633,35 @@ fn subst_solved_ty(ty: &Type, subst: &HashMap<PolytypeDeclaration, Type>) -> Typ
     }
 }
 
-fn data_ty_of_variant(statics: &StaticsContext, enum_def: &Rc<EnumDef>, idx: usize) -> Type {
+fn data_ty_of_variant(
+    statics: &StaticsContext,
+    enum_def: &Rc<EnumDef>,
+    idx: usize,
+    args: &[Type],
+) -> Type {
+    let mut subst: HashMap<PolytypeDeclaration, Type> = HashMap::default();
+    for (i, ty_arg) in enum_def.ty_args.iter().enumerate() {
+        if let (Some(Declaration::Polytype(decl)), Some(arg)) =
+            (statics.resolution_map.get(&ty_arg.name.id), args.get(i))
+        {
+            subst.insert(decl.clone(), arg.clone());
+        }
+    }
     let variant = &enum_def.variants[idx];
     let variant_data = &variant.fields;
+    let field_ty =
+        |i: usize| subst_solved_ty(&variant_data[i].ty.to_solved_type(statics).unwrap(), &subst);
     match variant_data.len() {
         0 => Type::Void,
-        1 => variant_data[0].ty.to_solved_type(statics).unwrap(),
-        _ => Type::Tuple(
-            variant_data
-                .iter()
-                .map(|field| field.ty.to_solved_type(statics).unwrap())
-                .collect(),
-        ),
+        1 => field_ty(0),
+        _ => Type::Tuple((0..variant_data.len()).map(field_ty).collect()),
+    }
+}
+
+fn enum_ty_args(ty: &Type) -> &[Type] {
+    match ty {
+        Type::Nominal(_, args) => args,
+        _ => &[],
     }
 }
 
